@@ -115,3 +115,69 @@ package types
 //@   ensures [first] err == nil ==> exists k: int :: 0 <= k && k < len(i.Manifests) && res == i.Manifests[k] &&
 //@             (forall j: int :: 0 <= j && j < k ==> !((key in i.Manifests[j].Annotations) && (val == "" || i.Manifests[j].Annotations[key] == val)))
 //@   loop 1: invariant [none-so-far] forall k: int :: 0 <= k && k <= rangeindex ==> !((key in i.Manifests[k].Annotations) && (val == "" || i.Manifests[k].Annotations[key] == val))
+
+//@ -- ------------------------------------------------------------------
+//@ -- RmDesc: the cases of its doc comment over the abstract view (tag -> digest, subject -> digest, digests, children).
+//@ -- Every quantified variable is an index into the old or the new list (trigger discipline: a variable that only
+//@ -- occurs in equalities gives the solver nothing to instantiate on).
+//@ pred rmTagGone(d, t, x) := (d.Digest != "" && x == d.Digest && (old(tagOf(d)) == "" || t == old(tagOf(d)))) || (d.Digest == "" && old(tagOf(d)) != "" && t == old(tagOf(d)))
+//@ pred rmSubjGone(d, s, x) := (d.Digest != "" && x == d.Digest) || (d.Digest == "" && old(subjOf(d)) != "" && s == old(subjOf(d)))
+//@ pred rmOtherTagsKept(i, d) := forall j: int :: 0 <= j && j < old(len(i.Manifests)) && old(tagOf(i.Manifests[j])) != "" && !rmTagGone(d, old(tagOf(i.Manifests[j])), old(i.Manifests[j]).Digest) ==>
+//@        tagRes(i, old(tagOf(i.Manifests[j])), old(i.Manifests[j]).Digest)
+//@ pred rmTagsNotInvented(i) := forall k: int :: 0 <= k && k < len(i.Manifests) && tagOf(i.Manifests[k]) != "" ==> old(tagRes(i, now(tagOf(i.Manifests[k])), now(i.Manifests[k].Digest)))
+//@ pred rmOtherSubjectsKept(i, d) := forall j: int :: 0 <= j && j < old(len(i.Manifests)) && old(subjOf(i.Manifests[j])) != "" && !rmSubjGone(d, old(subjOf(i.Manifests[j])), old(i.Manifests[j]).Digest) && !(old(tagOf(d)) != "" && d.Digest != "") ==>
+//@        subjRes(i, old(subjOf(i.Manifests[j])), old(i.Manifests[j]).Digest)
+//@ pred rmSubjectsNotInvented(i) := forall k: int :: 0 <= k && k < len(i.Manifests) && subjOf(i.Manifests[k]) != "" ==> old(subjRes(i, now(subjOf(i.Manifests[k])), now(i.Manifests[k].Digest)))
+//@ pred rmDigestsNotInvented(i) := forall k: int :: 0 <= k && k < len(i.Manifests) ==> old(hasDigest(i, now(i.Manifests[k].Digest)))
+//@ pred rmOtherDigestsKept(i, d) := forall j: int :: 0 <= j && j < old(len(i.Manifests)) && d.Digest != "" && old(i.Manifests[j]).Digest != d.Digest ==> hasDigest(i, old(i.Manifests[j]).Digest)
+//@ pred rmChildrenNotInvented(i) := forall k: int :: 0 <= k && k < len(i.childManifests) ==> old(hasChild(i, now(i.childManifests[k].Digest)))
+//@ pred rmOtherChildrenKept(i, d) := forall j: int :: 0 <= j && j < old(len(i.childManifests)) && !(old(tagOf(d)) == "" && old(i.childManifests[j]).Digest == d.Digest) ==> hasChild(i, old(i.childManifests[j]).Digest)
+//@ pred rmMapsNotInvented(i) := forall k: int :: 0 <= k && k < len(i.Manifests) ==> (exists j: int :: 0 <= j && j < old(len(i.Manifests)) && i.Manifests[k].Annotations == old(i.Manifests[j]).Annotations)
+
+//@ func (i *Index) RmDesc(d Descriptor)
+//@   props C18 C03
+//@   requires [wf] wfIndex(i)
+//@   ensures [wf] uses(3:wf, 1:top-level-same) wfIndex(i)
+//@   ensures [no-ref-left] uses(3:range, 3:cleaned-digest, 3:children) old(tagOf(d)) == "" && d.Digest != "" ==> !hasDigest(i, d.Digest) && !hasChild(i, d.Digest)
+//@   ensures [tag-gone] uses(3:range, 3:cleaned-tag) old(tagOf(d)) != "" && d.Digest != "" ==> !tagRes(i, old(tagOf(d)), d.Digest)
+//@   ensures [digest-kept] uses(3:range, 3:reachable, 3:found-means-kept) old(tagOf(d)) != "" && d.Digest != "" && old(hasDigest(i, d.Digest)) ==> hasDigest(i, d.Digest)
+//@   ensures [other-tags-kept] uses(3:other-tags-kept) rmOtherTagsKept(i, d)
+//@   ensures [tags-not-invented] uses(3:tags-not-invented) rmTagsNotInvented(i)
+//@   ensures [other-subjects-kept] uses(3:other-subjects-kept) rmOtherSubjectsKept(i, d)
+//@   ensures [subjects-not-invented] uses(3:subjects-not-invented) rmSubjectsNotInvented(i)
+//@   ensures [digests-not-invented] uses(3:digests-not-invented) rmDigestsNotInvented(i)
+//@   ensures [other-digests-kept] uses(3:other-digests-kept) rmOtherDigestsKept(i, d)
+//@   ensures [children-not-invented] uses(3:children-not-invented) rmChildrenNotInvented(i)
+//@   ensures [other-children-kept] uses(3:other-children-kept) rmOtherChildrenKept(i, d)
+//@   ensures [maps-not-invented] uses(3:maps-not-invented) rmMapsNotInvented(i)
+//@   ensures [shrinks] uses(3:shape) len(i.Manifests) <= old(len(i.Manifests)) && arr(i.Manifests) == old(arr(i.Manifests)) && off(i.Manifests) == old(off(i.Manifests))
+//@   loop 1: invariant [range] uses() -1 <= mi && mi < len(i.childManifests) && tag == "" && d.Digest != ""
+//@   loop 1: invariant [shape] uses(range) arr(i.childManifests) == old(arr(i.childManifests)) && off(i.childManifests) == old(off(i.childManifests)) && len(i.childManifests) <= old(len(i.childManifests))
+//@   loop 1: invariant [top-level-same] uses(range, shape) i.Manifests == old(i.Manifests) && wfIndex(i) && frame_maps(string, string) &&
+//@             forall k: int :: 0 <= k && k < len(i.Manifests) ==> i.Manifests[k] == old(i.Manifests[k])
+//@   loop 1: invariant [cleaned] uses(range, shape) forall k: int :: mi < k && k < len(i.childManifests) ==> i.childManifests[k].Digest != d.Digest
+//@   loop 1: invariant [children-not-invented] uses(range, shape) rmChildrenNotInvented(i)
+//@   loop 1: invariant [other-children-kept] uses(range, shape) forall j: int :: 0 <= j && j < old(len(i.childManifests)) && old(i.childManifests[j]).Digest != d.Digest ==> hasChild(i, old(i.childManifests[j]).Digest)
+//@   loop 1: decreases mi + 1
+//@   loop 2: invariant [scan] tag == old(tagOf(d)) && tag != "" && d.Digest != "" && rangeindex < len(i.Manifests) && !others &&
+//@             forall k: int :: 0 <= k && k <= rangeindex ==> !(i.Manifests[k].Digest == d.Digest && tagOf(i.Manifests[k]) != tag)
+//@   loop 3: invariant [range] uses() -1 <= mi && mi < len(i.Manifests) && tag == old(tagOf(d)) && (old(subjOf(d)) != "" ==> referrer == old(subjOf(d))) && (referrer != "" ==> referrer == old(subjOf(d)))
+//@   loop 3: invariant [shape] uses(range) arr(i.Manifests) == old(arr(i.Manifests)) && off(i.Manifests) == old(off(i.Manifests)) && len(i.Manifests) <= old(len(i.Manifests))
+//@   loop 3: invariant [wf] uses(range, shape, cleaned-digest, cleaned-tag, found-means-kept, others-witness, no-others) wfIndex(i)
+//@   loop 3: invariant [cleaned-digest] uses(range, shape) tag == "" && d.Digest != "" ==> forall k: int :: mi < k && k < len(i.Manifests) ==> i.Manifests[k].Digest != d.Digest
+//@   loop 3: invariant [cleaned-tag] uses(range, shape, wf) tag != "" && d.Digest != "" ==> forall k: int :: mi < k && k < len(i.Manifests) ==> !(i.Manifests[k].Digest == d.Digest && tagOf(i.Manifests[k]) == tag)
+//@   loop 3: invariant [found-means-kept] uses(range, shape) tag != "" && d.Digest != "" ==> (found <==> (exists k: int :: mi < k && k < len(i.Manifests) && i.Manifests[k].Digest == d.Digest))
+//@   loop 3: invariant [reachable] uses(range, shape, found-means-kept, others-witness) tag != "" && d.Digest != "" && old(hasDigest(i, d.Digest)) ==> found || (exists k: int :: 0 <= k && k <= mi && i.Manifests[k].Digest == d.Digest)
+//@   loop 3: invariant [others-witness] uses(range, shape, wf) others && !found && tag != "" && d.Digest != "" ==> (exists k: int :: 0 <= k && k <= mi && i.Manifests[k].Digest == d.Digest && tagOf(i.Manifests[k]) != tag)
+//@   loop 3: invariant [no-others] uses(range, shape, wf) !others && tag != "" && d.Digest != "" ==> forall k: int :: 0 <= k && k <= mi && i.Manifests[k].Digest == d.Digest ==> tagOf(i.Manifests[k]) == tag
+//@   loop 3: invariant [other-tags-kept] uses(range, shape, wf) rmOtherTagsKept(i, d)
+//@   loop 3: invariant [tags-not-invented] uses(range, shape, wf) rmTagsNotInvented(i)
+//@   loop 3: invariant [other-subjects-kept] uses(range, shape, wf) rmOtherSubjectsKept(i, d)
+//@   loop 3: invariant [subjects-not-invented] uses(range, shape, wf) rmSubjectsNotInvented(i)
+//@   loop 3: invariant [digests-not-invented] uses(range, shape) rmDigestsNotInvented(i)
+//@   loop 3: invariant [other-digests-kept] uses(range, shape) rmOtherDigestsKept(i, d)
+//@   loop 3: invariant [children] uses(range, shape, wf) !hasChild(i, d.Digest) || tag != "" || d.Digest == ""
+//@   loop 3: invariant [children-not-invented] uses(range, shape, wf) rmChildrenNotInvented(i)
+//@   loop 3: invariant [other-children-kept] uses(range, shape, wf) rmOtherChildrenKept(i, d)
+//@   loop 3: invariant [maps-not-invented] uses(range, shape) rmMapsNotInvented(i)
+//@   loop 3: decreases mi + 1
